@@ -656,6 +656,20 @@ def judge_cli(ctx, idx, op, impl, mi, ms, reason):
         return f
     if op[0] == "ctcp":
         return judge_ctcp(ctx, idx, op, impl, mi, ms, reason)
+    if op[0] == "cliflood":
+        # the code at a very large number of waiters; no model run (the theorems hold for any number)
+        ctx.count("flood_scenarios")
+        m = re.match(r"pending=(\d+) got=(\d+) late=(\S+)$", impl)
+        if not m:
+            return [Finding("property", idx, "with %s requests outstanding: %s" % (op[1], impl[:120]), expected=ms, observed=impl[:200], name="C12_stopped")]
+        f = []
+        if m.group(1) != "0":
+            f.append(Finding("property", idx, "%s of %s response futures are still pending after the reader has stopped" % (m.group(1), op[1]), expected=ms, observed=impl, name="C12_stopped"))
+        if m.group(2) != "0":
+            f.append(Finding("property", idx, "a future received a message the peer did not send", expected=ms, observed=impl, name="C11_safety"))
+        if "hang" in m.group(3) or "answered" in m.group(3):
+            f.append(Finding("property", idx, "a send attempted after the reader has stopped (after %s outstanding requests) neither fails nor yields a future that fails" % op[1], expected=ms, observed=impl, name="C12_send_after_stop"))
+        return f
     if op[0] != "cli":
         return same(ctx, idx, op, impl, mi, "dictionary set-up")
     f = []
@@ -1084,7 +1098,7 @@ PROPS = {
     "C10": dict(family="c10", judge=judge_c10, probes=("lsn",), title="One misbehaving connection cannot disturb the others"),
     "C13": dict(family="c13", judge=judge_c13, probes=("tls", "tlsq", "tlsrude", "tlsre"), title="TLS settings are honoured exactly"),
     "C11": dict(family="c11", judge=judge_cli, probes=("cli", "ctcp", "clim"), model_input=cli_model_input, title="Client delivers each answer to the request it belongs to"),
-    "C12": dict(family="c12", judge=judge_cli, probes=("cli", "ctcp", "cliswitch", "clim"), expect_keys=["ev_stop", "ev_refused", "ev_rm", "ev_dl", "future_err", "future_got", "future_pending", "late_err", "tcp_scenarios"], model_input=cli_model_input, title="Every response future eventually completes"),
+    "C12": dict(family="c12", judge=judge_cli, probes=("cli", "ctcp", "cliswitch", "clim", "cliflood"), expect_keys=["ev_stop", "ev_refused", "ev_rm", "ev_dl", "future_err", "future_got", "future_pending", "late_err", "tcp_scenarios"], model_input=cli_model_input, title="Every response future eventually completes"),
     "C14": dict(both_builds=True, family="c14", judge=judge_c14, probes=("dget", "dbyname", "dapp", "dcmd"), title="Dictionary lookups reflect exactly what was loaded, latest wins"),
     "C15": dict(both_builds=True, family="c15", extra=shipped_defs, judge=judge_c15, probes=("dec", "dget", "dbyname", "rt"), title="AVPs are typed by their exact dictionary entry or rejected"),
     "C16": dict(both_builds=True, family="c16", extra=shipped_defs, judge=judge_c16, probes=("add_by_name", "avp_name", "enc", "dump", "len"), title="Building an AVP by name follows the dictionary; failure changes nothing"),
